@@ -32,6 +32,7 @@ def run(rep):
     info = common.prepare_corpus(rep.tier, rep.seed, PLUGINS)
     rep.cov["corpus"] = info["stats"]
     common.compare_corpus(rep, info, OPS, nontrivial=nontrivial, oracle=oracle)
+    alias_probe(rep)
     # second process: same answers (hashing is repeatable across processes)
     cdir = info["dir"]
     if info.get("build_rc") == 0:
@@ -45,6 +46,38 @@ def run(rep):
             i = next((k for k in range(min(len(a), len(b))) if a[k] != b[k]), min(len(a), len(b)))
             rep.violation("hash differs between two processes: %s vs %s" % (a[i] if i < len(a) else "-", b[i] if i < len(b) else "-"),
                           {"line": i + 1, "corpus": cdir}, True)
+
+
+def alias_probe(rep):
+    """Types reached through ALIASES (go/types hands the generator *types.Alias): goderive may refuse them with a
+    message; where it accepts, Equal must still imply the same hash (own Equal/Hash methods behind an alias)."""
+    import shutil
+    import tempfile
+    _, binp = common.build_goderive()
+    data = os.path.join(common.VERIF, "vlib", "data", "aliasprobe")
+    d = tempfile.mkdtemp(prefix="verif-c04-alias-")
+    try:
+        for f in os.listdir(data):
+            shutil.copyfile(os.path.join(data, f), os.path.join(d, f[:-4]))
+        with open(os.path.join(d, "go.mod"), "w") as f:
+            f.write("module aliasprobe\n\ngo 1.24\n")
+        rc, err, to = common.run_goderive(binp, d, ["."], timeout=120, mem_gb=4)
+        rep.cov["programs"] += 1
+        srcs = {f: open(os.path.join(d, f)).read() for f in ("types.go", "main.go")}
+        if to or "panic:" in err:
+            rep.violation("goderive crashed or hung on the alias probe: " + err[-300:], {"files": srcs}, True)
+        elif rc != 0:
+            rep.cov["alias_probe"] = "refused with a message: " + err.strip()[-160:]
+        else:
+            p = common.sh(["go", "run", "."], cwd=d, timeout=300)
+            rep.cov["alias_probe"] = "accepted; Equal => same hash on 81 pairs: " + ("holds" if p.returncode == 0 else "FAILS")
+            rep.cov["evaluations"] += 81
+            if p.returncode != 0:
+                gen = open(os.path.join(d, "derived.gen.go")).read() if os.path.exists(os.path.join(d, "derived.gen.go")) else ""
+                rep.violation("types behind aliases: goderive exited 0 but the derived functions misbehave or do not compile: " + (p.stdout + p.stderr)[:500],
+                              {"files": srcs, "derived": gen[:6000], "output": (p.stdout + p.stderr)[:2000]}, True)
+    finally:
+        shutil.rmtree(d, ignore_errors=True)
 
 
 def replay(rep, path):
